@@ -421,7 +421,9 @@ fn host_unit(ctx: &mut Ctx, cfg: &Cfg, bs: &[B], host: Host, evaluate: bool) {
     if let Err(e) = res {
         // a refusal is no wrong output; classes are recorded for the vacuity guards
         match e {
-            write::Error::ValueTooLarge | write::Error::OffsetOutOfBounds | write::Error::LengthOutOfBounds => ctx.outcome("refused:value-too-large"),
+            write::Error::ValueTooLarge => ctx.outcome("refused:value-too-large"),
+            // a fix-up that does not fit the section it is applied to is never a justified refusal
+            write::Error::OffsetOutOfBounds | write::Error::LengthOutOfBounds => ctx.fail("write::Dwarf::write", "refusal", "fixup-out-of-bounds", format!("{}: {:?}", case(), e)),
             write::Error::UnsupportedExpressionForwardReference => ctx.outcome("refused:forward-reference"),
             _ => ctx.fail("write::Dwarf::write", "refusal", "unexpected-error", format!("{}: {:?}", case(), e)),
         }
